@@ -81,6 +81,40 @@ def make_case(seed, dm='lua', size=None):
     return ch, hist
 
 
+def nested_case(seed):
+    """A small machine whose first state invokes an inline machine that is larger (more states and transitions, so that the sizing macros of
+    the file are those of the nested machine), sometimes with a third machine nested in that one. Returns (xml, history)."""
+    rng = random.Random(seed)
+    def child(depth):
+        ch, _ = C.gen_chart(rng.randint(0, 10 ** 9), data=True, errors=False, dataexpr=False, nstates=rng.choice([8, 10]))
+        pad_chart(ch, rng, rng.choice([9, 12, 17, 20, 26, 33, 41]))
+        if False and depth < 2:      # a third level is not generated: ChartToC::resortStates recurses three times per DOM level, two levels of nesting take minutes to transform
+            host = rng.choice([q for q in ch.proper() if q.kind != 'final'])
+            host.extra_xml = ['<invoke type="scxml" id="n%d"><content>%s</content></invoke>' % (depth, child(depth + 1))]
+        return C.render(ch, 'lua')
+    par, hist = C.gen_chart(seed, data=True, errors=False, dataexpr=False, nstates=4)
+    host = par.root.states()[0] if not par.root.initial_attr else par.by_id[par.root.initial_attr[0]]
+    if host.kind == 'final': host = [q for q in par.proper() if q.kind != 'final'][0]
+    host.extra_xml = ['<invoke type="scxml" id="n0"><content>%s</content></invoke>' % child(1)]
+    return C.render(par, 'lua'), hist
+
+
+def wide_case(seed, nstates, ntrans):
+    """Index-type boundaries: a machine with `nstates` states (incl. root) and at least `ntrans` transitions (flat padding around a generated core)."""
+    rng = random.Random(seed)
+    ch, hist = C.gen_chart(seed, data=True, errors=False, dataexpr=False, nstates=6)
+    k = 0
+    while len(ch.doc) < nstates:
+        k += 1
+        s = C.St('w%d' % k, 'state', ch.root); ch.root.children.append(s); ch.reindex()
+    k = 0; srcs = [q for q in ch.proper() if q.kind != 'final']
+    while len(ch.transitions()) < ntrans:
+        k += 1; q = srcs[k % len(srcs)]
+        q.trans.append(C.Tr(q, ['zz%d' % k], None, [rng.choice(ch.proper()).id] if k % 3 else [], False, []))
+    ch.reindex()
+    return ch, hist
+
+
 def compile_run(cdir, cid, hist, flags, tag, timeout=60):
     binf = os.path.join(cdir, '%s.%s.bin' % (cid, tag))
     cmd = ['gcc', '-std=gnu99', '-g', '-w'] + flags + ['-DCHART_FILE="%s"' % os.path.join(cdir, cid + '.c'), os.path.join(common.VERIF, 'harness', 'genc_main.c'), '-o', binf]
@@ -143,20 +177,53 @@ def refproj_static_domain(ch, hist):
 def work(job):
     xbin, dbin, outdir, cases = job
     os.makedirs(outdir, exist_ok=True)
-    built = {}
+    built = {}; nested = {}
     for cid, seed, size in cases:
-        ch, hist = make_case(seed, size=size)
+        if size == 'nested':
+            nested[cid] = nested_case(seed); continue
+        if isinstance(size, tuple): ch, hist = wide_case(seed, *size)
+        else: ch, hist = make_case(seed, size=size)
         ref = c01lib.ref_run(ch, hist)
         if ref.diverged: continue
         built[cid] = (ch, hist)
-    res = xform.transform_batch(xbin, [(cid, 'c', C.render(ch, 'lua')) for cid, (ch, hist) in built.items()], outdir)
+    nout = []
+    if nested:
+        # nested machines: memory safety of every machine in the file under the file's sizing macros (behaviour of invoked sessions is C11's subject)
+        resn = xform.transform_batch(xbin, [(cid, 'c', xml) for cid, (xml, hist) in nested.items()], outdir, timeout=900)
+        for cid, (xml, hist) in nested.items():
+            rec = {'id': cid, 'hash': 'nested:%s' % cid, 'states': xml.count('<state') + xml.count('<parallel') + xml.count('<final'), 'trans': xml.count('<transition'), 'bad': [], 'nontrivial': True, 'nested': True}
+            r = resn.get(cid)
+            if r and r[0] == 'timeout':
+                rec['skip'] = 'transformer took longer than the watchdog (not a C04 matter)'
+            elif not r or r[0] != 'ok':
+                rec['bad'].append(('transform:' + str(r[1] if r else None)[:100], {'stderr': r[2] if r and len(r) > 2 else None}))
+            else:
+                for tag, fl in (('san', ['-O1'] + SAN), ('plain', ['-O2'])):
+                    rr = compile_run(outdir, cid, hist, fl, tag)
+                    if 'compile_error' in rr: rec['bad'].append(('emitted-c-does-not-compile', {'build': tag, 'stderr': rr['compile_error']})); break
+                    if rr['timeout']: rec['bad'].append(('emitted-c-hangs', {'build': tag})); break
+                    if rr['rc'] != 0:
+                        rec['bad'].append(('sanitizer:' + (common.sanitizer_summary(rr['err']) or 'rc=%s' % rr['rc'])[:120], {'build': tag, 'stderr': rr['err'][-3000:]})); break
+                    ks = [l.split() for l in rr['out'].split('\n') if l.startswith('K ')]
+                    rec['nested_runs'] = len(ks); rec['items'] = sum(int(k[4]) for k in ks)
+                    pc = proj_c(rr['out']); rec['sizes'] = pc['sizes']
+                if not rec['bad'] and not rec.get('nested_runs'): rec['skip'] = 'the invoking state was never active'
+            if rec['bad']: rec['xml'] = xml; rec['history'] = hist
+            for f in os.listdir(outdir):
+                if f.startswith(cid + '.'):
+                    try: os.unlink(os.path.join(outdir, f))
+                    except OSError: pass
+            nout.append(rec)
+    res = xform.transform_batch(xbin, [(cid, 'c', C.render(ch, 'lua')) for cid, (ch, hist) in built.items()], outdir, timeout=900 if any(isinstance(c[2], tuple) for c in cases) else None)
     runs = c01lib.run_batch(dbin, [{'id': cid, 'xml': C.render(ch, 'lua'), 'engine': 'large', 'hist': hist} for cid, (ch, hist) in built.items()])
     out = []
     for cid, (ch, hist) in built.items():
         rec = {'id': cid, 'hash': C.chart_hash(ch) + ':' + ','.join(hist), 'states': len(ch.doc), 'trans': len(ch.transitions()), 'bad': [],
                'nontrivial': bool(ch.features() & NONTRIVIAL)}
         r = res.get(cid)
-        if not r or r[0] != 'ok':
+        if r and r[0] == 'timeout':
+            rec['skip'] = 'transformer took longer than the watchdog (not a C04 matter)'
+        elif not r or r[0] != 'ok':
             rec['bad'].append(('transform:' + str(r[1] if r else None)[:100], {'stderr': r[2] if r and len(r) > 2 else None}))
         elif runs[cid]['crash'] or runs[cid]['timeout']:
             rec['skip'] = 'interpreter run failed (judged by C01/C07)'
@@ -177,7 +244,7 @@ def work(job):
                 try: os.unlink(os.path.join(outdir, f))
                 except OSError: pass
         out.append(rec)
-    return out
+    return out + nout
 
 
 def run_cases(chk, tier, n, sizes, tag):
@@ -189,7 +256,14 @@ def run_cases(chk, tier, n, sizes, tag):
     cases = [('g%d' % i, base + i, None) for i in range(n)]
     cases += [('z%d_%d' % (sz, k), base + 900000 + sz * 10 + k, sz) for sz in sizes for k in range(2)]
     cases += [('d%d' % i, -(base + 700000 + i), None) for i in range(max(12, n // 4))]
-    jobs = [(xbin, dbin, os.path.join(outroot, 'w%d' % (i // 6)), cases[i:i + 6]) for i in range(0, len(cases), 6)]
+    if sizes:
+        cases += [('nest%d' % i, base + 600000 + i, 'nested') for i in range(max(10, n // 10))]
+        # index types: uint8_t counters at 255/256/257 states (few transitions) and at 255/256/257 transitions (few states)
+        wide = [(255, 0), (256, 0), (257, 0), (12, 255), (12, 256), (12, 257)] + ([(256, 256), (300, 40), (40, 300)] if tier != 'quick' else [])
+        cases += [('wide%d_%d' % w, base + 650000 + i, w) for i, w in enumerate(wide)]
+    slow = [c for c in cases if c[2] == 'nested' or isinstance(c[2], tuple)]; cases = [c for c in cases if c not in slow]
+    jobs = [(xbin, dbin, os.path.join(outroot, 's%d' % i), [c]) for i, c in enumerate(slow)]         # slow transformations first, one per job
+    jobs += [(xbin, dbin, os.path.join(outroot, 'w%d' % (i // 6)), cases[i:i + 6]) for i in range(0, len(cases), 6)]
     recs = []
     for out in common.pmap(work, jobs): recs += out
     shutil.rmtree(outroot, ignore_errors=True)
@@ -218,6 +292,7 @@ def main(tier, replay):
     for rec in recs:
         chk.count()
         if rec.get('skip'): skipped += 1; continue
+        if rec.get('nested'): chk.add('nested_machine_documents', 1); chk.add('nested_machines_driven', rec.get('nested_runs', 0))
         items += rec.get('items', 0)
         if rec.get('sizes'): sizeseen['states_bytes=%d trans_bytes=%d' % (rec['sizes'][2], rec['sizes'][3])] += 1
         if rec['nontrivial'] and rec.get('items', 0) > 3: chk.nontrivial(rec['hash'])
@@ -228,8 +303,8 @@ def main(tier, replay):
     chk.add('trace_items_compared', items); chk.add('skipped_interpreter_failures', skipped); chk.add('sizing_macro_classes', dict(sizeseen))
     chk.rule = ('each case = seeded random document (lua rendering, integer fragment) + history; ChartToC output compiled with the emitted sizing macros, once with -fsanitize=address,undefined,bounds and once '
                 'plain -O2; projected history (dequeued events, log lines+values, configuration after each micro step, final configuration/data) compared with the interpreter (engine large); extra documents are '
-                'padded to state counts around the byte boundaries of the sizing macros. distinct_nontrivial = distinct (document, history) using parallel/history/targetless/internal/multi-target/raise with >3 trace items')
-    chk.assumptions = ['scaffold harness/genc_main.c implements the callbacks with the integer datamodel fragment and the reference event matcher', 'invoke is exercised for sizing only by C20/C05, not behaviourally']
+                'padded to state counts around the byte boundaries of the sizing macros, to 255/256/257 states or transitions (index types), and documents whose first state invokes a larger inline machine (driven inside the scaffold, sanitizers only). distinct_nontrivial = distinct (document, history) using parallel/history/targetless/internal/multi-target/raise with >3 trace items')
+    chk.assumptions = ['scaffold harness/genc_main.c implements the callbacks with the integer datamodel fragment and the reference event matcher', 'invoked (nested) machines are driven inside the scaffold for memory safety under the shared sizing macros only; their behaviour is not compared (C11 covers invocation)']
     chk.min_distinct = 40
     chk.finish()
 
